@@ -48,7 +48,7 @@ func (r *RecRaster) Reset(w, h int) {
 
 // Fresh makes the recorder behave like a newly made rasteriser (no size, pen at the origin) that
 // writes to the same log.
-func (r *RecRaster) Fresh() { r.w, r.h, r.px, r.py, r.fx, r.fy = 0, 0, 0, 0, 0, 0 }
+func (r *RecRaster) Fresh()                  { r.w, r.h, r.px, r.py, r.fx, r.fy = 0, 0, 0, 0, 0, 0 }
 func (r *RecRaster) Size() image.Point       { return image.Point{r.w, r.h} }
 func (r *RecRaster) Bounds() image.Rectangle { return image.Rect(0, 0, r.w, r.h) }
 func (r *RecRaster) Pen() (x, y float32)     { return r.px, r.py }
